@@ -130,7 +130,7 @@ alloc_step!(c08_alloc_step_o4, 4, 16, 16, 7);
 
 // @harness c08_alloc_step_o0
 // @props C08 C03 C18
-// @tier quick
+// @tier thorough
 // @cost 200
 // @timeout 1500
 // @needs A1
@@ -142,7 +142,7 @@ alloc_step!(c08_alloc_step_o0, 0, 16, 16, 11);
 
 // @harness c08_alloc_step_o6
 // @props C08 C03 C18
-// @tier quick
+// @tier thorough
 // @cost 200
 // @timeout 1500
 // @needs A1
@@ -200,12 +200,12 @@ macro_rules! free_step {
             kani::assume(host >> 56 == 0 && host & (cs - 1) == 0);
             let start = HostCluster(host).rb_slice_index(&env.info);
             let count: usize = kani::any();
-            kani::assume(count >= 1 && count <= 3);
+            kani::assume(count >= 1 && count <= 2);
             // the freed run lies in the window of this slice, and the caller holds a reference
             // to every cluster of it (refcount >= 1)
             kani::assume(start >= entries - WIN && start + count <= entries);
             let mut k = 0;
-            while k < 3 {
+            while k < 2 {
                 if k < count {
                     kani::assume(rc(&before, order, start + k) >= 1);
                 }
@@ -230,7 +230,7 @@ macro_rules! free_step {
             assert!(new_hint <= hint);
             let mut first_free: Option<u64> = None;
             let mut k = 0;
-            while k < 3 {
+            while k < 2 {
                 if k < count && first_free.is_none() && rc(&after, order, start + k) == 0 {
                     first_free = Some(host + (k as u64) * cs);
                 }
@@ -242,7 +242,7 @@ macro_rules! free_step {
             }
             kani::cover!(first_free.is_some() && new_hint < hint);
             kani::cover!(first_free.is_none(), "still referenced elsewhere");
-            kani::cover!(count == 3);
+            kani::cover!(count == 2);
             // a step never clears the device-wide flag
             assert!(!nf0 || env.need_flush_meta());
             core::mem::forget(r);
@@ -258,15 +258,15 @@ macro_rules! free_step {
 // @timeout 1500
 // @needs A0
 // @desc one free step (whole body of free_clusters, lock and cache lookup shimmed) from an arbitrary refcount slice state at 16-bit refcounts: every cluster of the run loses exactly one reference, no other counter changes, the slice is marked dirty and need_flush set, the allocation hint never moves up and becomes min(old hint, first cluster whose count reached 0)
-// @bounds slice: real 512-byte slice, arbitrary refcounts in its last 4 entries; run of 1..=3 clusters inside them, each with refcount >= 1 (the caller's references); cluster_bits 16 (concrete); any old hint
+// @bounds slice: real 512-byte slice, arbitrary refcounts in its last 4 entries; run of 1..=2 clusters inside them, each with refcount >= 1 (the caller's references); cluster_bits 16 (concrete); any old hint
 // @funcs Qcow2Dev::free_clusters (whole body) RefBlock::decrement HostCluster::{rt_index,rb_slice_index,rb_slice_host_end}
 // @stub alloc::fmt::format -> String::new()
 // @assume every freed cluster has refcount >= 1 (a free of an unreferenced cluster panics in decrement().unwrap())
-free_step!(c08_free_step_o4, 4, 16, 16, 7);
+free_step!(c08_free_step_o4, 4, 16, 16, 4);
 
 // @harness c08_free_step_o1
 // @props C08 C03 C18
-// @tier quick
+// @tier thorough
 // @cost 200
 // @timeout 1500
 // @needs A0
@@ -274,7 +274,7 @@ free_step!(c08_free_step_o4, 4, 16, 16, 7);
 // @bounds as c08_free_step_o4 with refcount_order 1
 // @funcs Qcow2Dev::free_clusters (whole body) RefBlock::decrement
 // @stub alloc::fmt::format -> String::new()
-free_step!(c08_free_step_o1, 1, 16, 16, 7);
+free_step!(c08_free_step_o1, 1, 16, 16, 4);
 
 // @harness c08_free_step_o6
 // @props C08 C03 C18
@@ -286,4 +286,4 @@ free_step!(c08_free_step_o1, 1, 16, 16, 7);
 // @bounds as c08_free_step_o4 with refcount_order 6
 // @funcs Qcow2Dev::free_clusters (whole body) RefBlock::decrement
 // @stub alloc::fmt::format -> String::new()
-free_step!(c08_free_step_o6, 6, 16, 16, 7);
+free_step!(c08_free_step_o6, 6, 16, 16, 4);
